@@ -12,9 +12,9 @@ out=$wt/${SEED_OUT:-OUT}/$ch
 here=$(cd "$(dirname "$0")/.." && pwd)
 export GOPROXY=off GOSUMDB=off GOTOOLCHAIN=local
 cd "$wt" || exit 2
-clean() { git checkout -q -- . ; git clean -fdq -e OUT >/dev/null 2>&1; }
+clean() { git checkout -q -- . ; git clean -fdq -e "OUT*" >/dev/null 2>&1; }
 clean
-cmds=$(grep -E '^\s*(cp |mkdir |go test|go run|\(cd |cd )' "$out/RUN.txt" | sed 's/#.*$//' | grep -v 'git apply')
+cmds=$(grep -E '^\s*([A-Z_]+=\S+\s+)*(cp |mkdir |go test|go run|\(cd |cd )' "$out/RUN.txt" | sed 's/#.*$//' | grep -v 'git apply')
 rundemo() { ( cd "$wt"; while IFS= read -r l; do [ -z "$l" ] && continue; eval "$l" || return 1; done <<< "$cmds" ) >"$out/.demo.$1.log" 2>&1; }
 rundemo clean; demo_clean=$?
 clean
@@ -25,7 +25,7 @@ suite=pass
 go test -vet=off -count=1 $pk >"$out/.suite.log" 2>&1 || suite=FAIL
 (cd tests && go test -vet=off -count=1 ./... >>"$out/.suite.log" 2>&1) || suite=FAIL
 rundemo patched; demo_patched=$?
-git clean -fdq -e OUT >/dev/null 2>&1
+git clean -fdq -e "OUT*" >/dev/null 2>&1
 echo "$prop/$ch: build=$build suite=$suite demo(clean)=$( [ $demo_clean = 0 ] && echo pass || echo FAIL) demo(patched)=$( [ $demo_patched = 0 ] && echo pass || echo fail)"
 for p in $prop $more; do
   res=$(cd "$here" && VERIF_REPO="$wt" ./check "$p" "$tier" 2>&1); code=$?
